@@ -46,20 +46,27 @@ interleaved with the open cursor. -/
 def cursorSession (st : AnyStore) (toks : List String) : AnyStore × String :=
   match st with
   | .bolt s =>
-    let (_, outs) := toks.foldl (fun (acc : Cursor Beacon × List String) t =>
+    -- `cancel`: the session's context is cancelled; every later move answers the context error without moving
+    let (_, _, outs) := toks.foldl (fun (acc : Cursor Beacon × Bool × List String) t =>
+      let (c, dead, o) := acc
+      if t = "cancel" then (c, true, "ok" :: o) else
       match parseCurOp t with
-      | some op => let (c', r) := Bolt.cursorStep acc.1 op; (c', r.show :: acc.2)
-      | none => (acc.1, "bad-op" :: acc.2)) (⟨s, none⟩, [])
+      | some op => if dead then (c, dead, "cancelled" :: o) else let (c', r) := Bolt.cursorStep c op; (c', dead, r.show :: o)
+      | none => (c, dead, "bad-op" :: o)) (⟨s, none⟩, false, [])
     (st, "|".intercalate outs.reverse)
   | .trimmed s =>
-    let (_, outs) := toks.foldl (fun (acc : Cursor Bytes × List String) t =>
+    let (_, _, outs) := toks.foldl (fun (acc : Cursor Bytes × Bool × List String) t =>
+      let (c, dead, o) := acc
+      if t = "cancel" then (c, true, "ok" :: o) else
       match parseCurOp t with
-      | some op => let (c', r) := Trimmed.cursorStep s.requiresPrevious acc.1 op; (c', r.show :: acc.2)
-      | none => (acc.1, "bad-op" :: acc.2)) (⟨s.kv, none⟩, [])
+      | some op => if dead then (c, dead, "cancelled" :: o) else
+          let (c', r) := Trimmed.cursorStep s.requiresPrevious c op; (c', dead, r.show :: o)
+      | none => (c, dead, "bad-op" :: o)) (⟨s.kv, none⟩, false, [])
     (st, "|".intercalate outs.reverse)
   | .mem s =>
     let (s', _, outs) := toks.foldl (fun (acc : MemState × Nat × List String) t =>
       let (m, pos, o) := acc
+      if t = "cancel" then (m, pos, "ok" :: o) else     -- memdb never looks at the context
       match parseCurOp t with
       | some op => let (p', r) := Mem.cursorStep m pos op; (m, p', r.show :: o)
       | none =>
